@@ -111,7 +111,7 @@ fn plan_str(p: &Plan) -> String {
 }
 fn sched_str(s: &Sched) -> String {
     format!(
-        "prio={};batch={};spurious={};caller={};grace={};drop={};mt={};hap={};ctx={}",
+        "prio={};batch={};spurious={};caller={};grace={};drop={};mt={};hap={};ctx={};poll={}",
         s.prio.iter().map(|x| x.to_string()).collect::<Vec<_>>().join("."),
         s.batch,
         s.spurious as u8,
@@ -120,7 +120,8 @@ fn sched_str(s: &Sched) -> String {
         s.drop_unpolled as u8,
         s.mt as u8,
         s.hold_after_panic as u8,
-        s.create_ctx
+        s.create_ctx,
+        s.poll_ctx
     )
 }
 fn parse_plan(s: &str) -> Plan {
@@ -144,6 +145,7 @@ fn parse_sched(s: &str) -> Sched {
             "mt" => sc.mt = v == "1",
             "hap" => sc.hold_after_panic = v == "1",
             "ctx" => sc.create_ctx = v.parse().unwrap_or(0),
+            "poll" => sc.poll_ctx = v.parse().unwrap_or(0),
             _ => {}
         }
     }
@@ -374,6 +376,8 @@ pub fn run_case(cx: &CaseCtx, exp: &Exp, plan: &Plan, sched: &Sched) -> RunRec {
     let k = cx.case.kind;
     if k.is_threads() {
         exec::run_threads(cx.case, exp, plan, sched, &step_of)
+    } else if k.is_async() && sched.poll_ctx != 0 {
+        exec::run_async_ctx(cx.case, exp, plan, sched)
     } else if k.is_tasks() && sched.mt {
         exec::run_async_tasks_mt(cx.case, exp, plan, sched)
     } else if k.is_tasks() {
@@ -397,11 +401,11 @@ fn accepts(prop: &str, tag: &str) -> bool {
         "C06" => matches!(tag, "C06"),
         "C07" => matches!(tag, "C07"),
         "C08" => matches!(tag, "C08" | "HUNG" | "PANIC"),
-        "C09" => matches!(tag, "C09" | "HUNG"),
+        "C09" => matches!(tag, "C09" | "HUNG" | "PANIC"),
         "C10" => matches!(tag, "C10"),
         "C11" => matches!(tag, "C11"),
         "C12" => matches!(tag, "C12" | "RES"),
-        "C13" => matches!(tag, "C13" | "RES"),
+        "C13" => matches!(tag, "C13" | "RES" | "PANIC"),
         "C16" => matches!(tag, "C16" | "RES"),
         "C18" => matches!(tag, "C18" | "HUNG"),
         _ => false,
@@ -764,6 +768,22 @@ impl<'a> Engine<'a> {
                     }
                     // laziness: create and drop unpolled
                     self.exec(cx, &vec![], &Sched { drop_unpolled: true, ..default.clone() }, false);
+                    // polling contexts: ungated runs, the future is polled by executors other than the controlled drivers
+                    // (fault-free plan and one single-failure plan)
+                    if !cfg!(miri) {
+                        let ctxs: &[u8] = if kind.is_tasks() { &[1, 2, 3, 4, 5, 6] } else { &[7, 8, 9] };
+                        let mut cplans: Vec<Plan> = vec![vec![]];
+                        if !fids.is_empty() {
+                            cplans.push(vec![(fids[rng.below(fids.len())], FAIL)]);
+                        }
+                        for (ci, pc) in ctxs.iter().enumerate() {
+                            let p = &cplans[ci % cplans.len()];
+                            let s = Sched { poll_ctx: *pc, bound_ms: 10_000, ..default.clone() };
+                            if self.exec(cx, p, &s, n >= 2).is_some() {
+                                self.stats.bump(&format!("runs_under_polling_context_{}", pc), 1);
+                            }
+                        }
+                    }
                     let mut plans: Vec<Plan> = vec![vec![]];
                     for _ in 0..(if thorough { 3 } else { 1 }) {
                         if !fids.is_empty() {
@@ -836,6 +856,16 @@ impl<'a> Engine<'a> {
                             }
                         } else {
                             self.exec(cx, &p2, &default, nt);
+                        }
+                        // handlers (and joiners) under the other polling contexts: the all-success plan and one more
+                        if matches!(prop.as_str(), "C13" | "C16") && kind.is_async() && pi < 2 && !cfg!(miri) {
+                            let ctxs: &[u8] = if kind.is_tasks() { &[1, 4, 6, 2] } else { &[7, 8] };
+                            for pc in ctxs {
+                                let s = Sched { poll_ctx: *pc, bound_ms: 10_000, ..default.clone() };
+                                if self.exec(cx, &p, &s, nt).is_some() {
+                                    self.stats.bump(&format!("runs_under_polling_context_{}", pc), 1);
+                                }
+                            }
                         }
                     }
                 }
